@@ -758,6 +758,14 @@ class C02(Prop):
     def classes(self):
         return list(CLASSES)
 
+    def shrink_candidates(self, req):
+        """only FIR programs are shrunk (malformed FIR makes the oracle raise = not a failure); token lines and source text are
+        replayed as they are, because every text the frontend rejects would count as 'still failing'"""
+        from ..core import _subterms_replace
+        if str(req[1]) == 'fir':
+            for i, v in enumerate(_subterms_replace(req[3])):
+                yield req[:3] + [v] + req[4:]
+
     def tables(self):
         _, _, _, _, _, styles, _ = _loki()
         f, i = styles['fortran'](), styles['ifs']()
